@@ -224,15 +224,22 @@ def closed_loop(seed=0, trials=3, elongated=None):
             hdr['CDELT1'], hdr['CDELT2'] = -scale, scale
             bm = 4.0 * scale
             hdr['BMAJ'], hdr['BMIN'], hdr['BPA'] = bm, bm, 0.0
-            if elongated and t == 0:
+            special = elongated if isinstance(elongated, dict) and t == 0 else None
+            if elongated and t == 0 and not special:
                 hdr['BMAJ'], hdr['BMIN'], hdr['BPA'] = bm * 1.05, bm, elongated[1]
             helper = wh.WCSHelper.from_header(hdr)
             r0, c0 = N / 2 + rng.uniform(-8, 8), N / 2 + rng.uniform(-8, 8)
             ra, dec = helper.pix2sky((r0 + 1, c0 + 1))
             a, b, pa = bm * rng.uniform(1.2, 2.0) * 3600, bm * rng.uniform(1.0, 1.15) * 3600, rng.uniform(-85, 85)
-            if elongated and t == 0:
+            if elongated and t == 0 and not special:
                 a, b, pa = bm * 4.0 * 3600, bm * 1.0 * 3600, elongated[0]
             peak = rng.choice([1, -1]) * rng.uniform(5, 50)
+            rmsv, clips = abs(peak) / 500.0, (10, 8)
+            if special:
+                # corners of the quantifier: clearly elongated sources off the pixel axes; resolved sources just above the seed clip
+                a, b, pa = bm * special.get('ratio', 3.0) * 3600, bm * 1.0 * 3600, special.get('pa', 45.0)
+                if special.get('snr'):
+                    rmsv, clips = abs(peak) / special['snr'], (5, 4)
             xo, yo, sx, sy, th = helper.sky2pix_ellipse((ra, dec), a / 3600, b / 3600, pa)
             s = 2 * math.sqrt(2 * math.log(2))
             x, y = real_np.mgrid[0:N, 0:N].astype(float)
@@ -243,7 +250,7 @@ def closed_loop(seed=0, trials=3, elongated=None):
             fn = os.path.join(d, 'inj%d.fits' % t)
             fits.PrimaryHDU(img.astype(real_np.float64), header=hdr).writeto(fn, overwrite=True)
             finder = sfm.SourceFinder(log=logging.getLogger('c01'))
-            srcs = finder.find_sources_in_image(fn, rms=abs(peak) / 500.0, bkg=0.0, nonegative=False, cores=1, innerclip=10, outerclip=8, progress=False) if 'progress' in sfm.SourceFinder.find_sources_in_image.__code__.co_varnames else finder.find_sources_in_image(fn, rms=abs(peak) / 500.0, bkg=0.0, nonegative=False, cores=1, innerclip=10, outerclip=8)
+            srcs = finder.find_sources_in_image(fn, rms=rmsv, bkg=0.0, nonegative=False, cores=1, innerclip=clips[0], outerclip=clips[1])
             if len(srcs) != 1:
                 return True, 'component-count', '%d components for one injected Gaussian (%s, peak %.2f)' % (len(srcs), proj, peak)
             g = srcs[0]
@@ -349,6 +356,13 @@ def run(rep):
         rep.validated_runs(1)
         if bad:
             rep.finding('C01/K-closed-loop/%s' % cls, dict(seed=5, elongated=list(el)), detail)
+    # corners of the quantifier: elongated sources off the pixel axes; resolved sources just above the seed clip
+    for name, sp, sd in (('diagonal', dict(pa=45.0, ratio=3.0), 5), ('diagonal', dict(pa=-40.0, ratio=3.5), 6), ('faint-resolved-5.8-sigma', dict(pa=0.0, ratio=3.0, snr=5.8), 5),
+                         ('faint-resolved-5.6-sigma', dict(pa=0.0, ratio=3.0, snr=5.6), 5)):
+        bad, cls, detail = closed_loop(sd, 1, elongated=sp)
+        rep.validated_runs(1)
+        if bad:
+            rep.finding('C01/K-closed-loop/%s:%s' % (name, cls), dict(seed=sd, special=sp), detail)
     rep.not_decided += ['the closed loop itself (optimiser convergence, island detection on the rendered image): exercised only by the noise-free replay oracle on a few random injections',
                         'noise case (within 5 reported standard errors)', 'internally estimated background/noise (BANE)', 'adequacy of the parameter bounds of estimate_lmfit_parinfo']
 
@@ -371,6 +385,9 @@ def replay(w):
         from checks import C04
         import random
         bad, cls, detail = C04.num_jac_check(C04.default_vals(1, random.Random(1)), 1, [{p: True for p in C04.NAMES}])
+        return bad, '%s: %s' % (cls, detail)
+    if w['witness'].get('special'):
+        bad, cls, detail = closed_loop(int(w['witness'].get('seed', 5)), 1, elongated=dict(w['witness']['special']))
         return bad, '%s: %s' % (cls, detail)
     if w['witness'].get('elongated'):
         bad, cls, detail = closed_loop(int(w['witness'].get('seed', 5)), 1, elongated=tuple(w['witness']['elongated']))
